@@ -173,13 +173,13 @@ impl<'a> Model<'a> {
                     }
                 },
                 Item::IncFn { kind, spelling, start, len, via } => {
-                    let needs_defs = !matches!(via, Via::Direct | Via::ConstPath);
+                    let needs_defs = !matches!(via, Via::Direct | Via::ConstPath | Via::Assert);
                     if needs_defs && !self.case.defs_path.as_ref().map(|d| self.expansions.contains_key(d)).unwrap_or(false) {
                         return Err(Stop::Unspecified("definitions file not included before use".to_string()));
                     }
                     let container = match via {
                         // the path string stands in the file itself
-                        Via::Direct | Via::Arg | Via::NestedArg | Via::ConstPath => path.to_string(),
+                        Via::Direct | Via::Arg | Via::NestedArg | Via::ConstPath | Via::Assert => path.to_string(),
                         _ => match &self.case.defs_path {
                             Some(d) if self.expansions.contains_key(d) => d.clone(),
                             _ => return Err(Stop::Unspecified("definitions file not included before use".to_string())),
@@ -199,6 +199,8 @@ impl<'a> Model<'a> {
                         return Err(Stop::Error(ErrClass::NotFound));
                     };
                     self.touched.insert(q.clone());
+                    let bits_before = self.bits.len();
+                    let emits = !matches!(via, Via::Assert);
                     match kind {
                         IncKind::Incbin => {
                             let n = content.len();
@@ -260,6 +262,10 @@ impl<'a> Model<'a> {
                                 }
                             }
                         }
+                    }
+                    if !emits {
+                        // the call stands in a directive that emits nothing
+                        self.bits.truncate(bits_before);
                     }
                 }
             }
